@@ -404,6 +404,27 @@ func (c *svcDiscoveryClient) loopRecv(stream svcDiscoveryStream) {
 	}
 }
 
+// reconcile drops the changes of a batch which are superseded. A service could
+// be subscribed and unsubscribed (in any order, any times) within one batch,
+// but the order is lost as they are carried by two queues: sending both lists
+// would leave the final state to the remote. The current state decides.
+func (c *svcDiscoveryClient) reconcile(subscribed, unsubscribed []string) ([]string, []string) {
+	c.RLock()
+	defer c.RUnlock()
+	var sub, unsub []string
+	for _, svcName := range subscribed {
+		if _, ok := c.subscribed[svcName]; ok {
+			sub = append(sub, svcName)
+		}
+	}
+	for _, svcName := range unsubscribed {
+		if _, ok := c.subscribed[svcName]; !ok {
+			unsub = append(unsub, svcName)
+		}
+	}
+	return sub, unsub
+}
+
 func (c *svcDiscoveryClient) loopSend(stream svcDiscoveryStream, stop <-chan struct{}) {
 	for {
 		var subscribed, unsubscribed []string
@@ -431,6 +452,7 @@ func (c *svcDiscoveryClient) loopSend(stream svcDiscoveryStream, stop <-chan str
 		}
 
 	SEND:
+		subscribed, unsubscribed = c.reconcile(subscribed, unsubscribed)
 		err := stream.Send(subscribed, unsubscribed)
 		if err != nil {
 			logger.Warnf("Send to service %s discovery stream failed: %v", c.scope, err)
